@@ -662,6 +662,13 @@ pub mod verif {
         Some(super::inside_group(pattern, regex_type))
     }
 
+    /// Whether the bracket expressions of the pattern are closed and their
+    /// classes, collating symbols and equivalence classes well-formed.
+    pub fn classes_ok(pattern: &str, regex_type: &str) -> Option<bool> {
+        let regex_type = regex_type.parse::<super::RegexType>().ok()?;
+        Some(super::check_classes(pattern, regex_type).is_ok())
+    }
+
     /// Whether every back-reference of the pattern refers to a group that is
     /// complete where it stands.
     pub fn back_references_ok(pattern: &str, regex_type: &str) -> Option<bool> {
